@@ -75,9 +75,18 @@ func genC03(r *Rand, tier, profile string) *Case {
 	for i := 1; i <= ns; i++ {
 		if r.Bool(0.25) {
 			at := t + int64(r.Range(100, int(maxWait)*5000))
-			k := r.Pick([]string{"cut", "close", "disc"})
+			k := r.Pick([]string{"cut", "close", "disc", "displaced"})
 			if k == "disc" {
 				ts = append(ts, tstep{at, Step{K: "pkt", C: i, S: "disconnect"}})
+			} else if k == "displaced" {
+				// the same client identifier connects again; the old session learns of it at its next
+				// keep-alive exchange, or loses its link first
+				ts = append(ts, tstep{at, Step{K: "connect", C: 10 + i, N: 0, S: fmt.Sprintf("s%d", i), U: "u", T: "p", I: 3000}})
+				if r.Bool(0.6) {
+					ts = append(ts, tstep{at + int64(r.Range(50, 2500)), Step{K: "pkt", C: i, S: "pingreq"}})
+				} else {
+					ts = append(ts, tstep{at + int64(r.Range(50, 2500)), Step{K: "cut", C: i}})
+				}
 			} else {
 				ts = append(ts, tstep{at, Step{K: k, C: i}})
 			}
@@ -115,6 +124,20 @@ func judgeRetx(w *world) {
 		if f.cause != "" {
 			sessionEnd = f.causeAt
 		}
+		// a newer connection with the same client identifier displaces this session: from then on
+		// it need not be served any more
+		// (it may be until it ends at its next keep-alive exchange, when the broker closes it)
+		servedUntil := sessionEnd
+		for _, other := range w.clients {
+			if other != cl && other.connack != nil && other.opts.ClientID == cl.opts.ClientID && other.connectAt > cl.connectAt {
+				if servedUntil < 0 || other.connectAt < servedUntil {
+					servedUntil = other.connectAt
+				}
+				if sessionEnd < 0 && cl.sawClose {
+					sessionEnd = cl.closeAt
+				}
+			}
+		}
 		perTag := map[string]int{}
 		for _, ex := range cl.exch {
 			perTag[ex.tag]++
@@ -143,8 +166,8 @@ func judgeRetx(w *world) {
 			// R1 at the tail: an exchange still open must have been retransmitted recently,
 			// unless the session ended
 			until := endMs
-			if sessionEnd >= 0 {
-				until = sessionEnd
+			if servedUntil >= 0 {
+				until = servedUntil
 			}
 			if ex.state != 2 {
 				last := ex.lastAt
@@ -261,6 +284,9 @@ func (w *world) idSpans() []idSpan {
 			if f.cause != "" && f.causeAt < to {
 				to = f.causeAt
 			}
+			if cl.sawClose && cl.closeAt < to {
+				to = cl.closeAt // the broker has closed the connection: the session is over
+			}
 			spans = append(spans, idSpan{client: id, pid: ex.pid, tag: ex.tag, from: ex.firstAt, to: to, node: cl.node})
 		}
 	}
@@ -303,9 +329,21 @@ func genC05(r *Rand, tier, profile string) *Case {
 		ts = append(ts, tstep{t + 5, Step{K: "sub", C: i, L: []string{f}, QL: []int{0}, I: 1}})
 	}
 	np := r.Range(1, 2)
+	devids := r.Bool(0.2)
+	if devids {
+		// session ids are the authentication provider's business: here it hands out device names,
+		// one a prefix of the other, and the two publishers (on one node) use packet identifiers
+		// whose digits continue them
+		c.Knobs["devids"] = 1
+		np = 2
+	}
 	for p := 0; p < np; p++ {
 		t += 10
-		ts = append(ts, tstep{t, Step{K: "connect", C: 10 + p, N: r.Intn(nodes), S: fmt.Sprintf("p%d", p), U: "u", T: "p", I: 3000}})
+		pn := r.Intn(nodes)
+		if devids {
+			pn = 0
+		}
+		ts = append(ts, tstep{t, Step{K: "connect", C: 10 + p, N: pn, S: fmt.Sprintf("p%d", p), U: "u", T: "p", I: 3000}})
 	}
 	t += 50
 	ts = append(ts, tstep{t, Step{K: "settle"}})
@@ -318,6 +356,9 @@ func genC05(r *Rand, tier, profile string) *Case {
 	}
 	open := map[int][]*hs{}
 	nextPid := map[int]int{}
+	if devids {
+		nextPid[10] = 20 // "dev1" + 21, 22, ... against "dev12" + 1, 2, ...
+	}
 	tagN := 0
 	n := r.Range(1, 8)
 	if tier == "thorough" {
